@@ -229,6 +229,8 @@ def check_unsigned_sub(ctx, prog, R):
         ctx.touch(fn)
         expr = "%s - %s" % (k7.expr_str(A), k7.expr_str(B))
         inst = "%s:%s" % (fn.name, expr.replace(" ", ""))
+        if role_of.get(fn.id) == "SCAN" and A[0] == "var" and not A[2] and B == ("c", 8):
+            expr = "idx - 8"        # the triage entry (and its checked preconditions) is about the shape `<index variable> - 8`, whatever the variable is called
         if A[0] == "c" and B[0] == "c" and A[1] >= B[1]:
             cls = "constant-safe"
         elif B[0] == "c" and LB.lb(A) >= B[1]:
@@ -258,7 +260,8 @@ def check_unsigned_sub(ctx, prog, R):
     # counted per configuration on the repaired tree: vu64+bitmap 28, vu64 without bitmap 26, fixed-width fields + bitmap 25.
     # The floor only guards against a vacuous pass (sites no longer recognised): it leaves room for refactors that
     # legitimately remove a few subtractions.
-    floor = 20 if ("vf_vu64" in feats and "htx_bitmap" in feats) else (19 if "vf_vu64" in feats else 18)
+    # (about half of the counted sites: two refactorings of the benign corpus remove eight of them in the fixed-width configuration)
+    floor = 14 if ("vf_vu64" in feats and "htx_bitmap" in feats) else (13 if "vf_vu64" in feats else 12)
     ctx.floor("unsigned-sub", "unsigned subtraction sites in the lib", n, floor)
     ctx.sample({"rule": "unsigned-sub", "classification": classes})
     from . import poscontrol
